@@ -54,3 +54,14 @@ Print Assumptions C17_reset_removes_exactly_one_collection.
 Theorem C17_store_invariant_with_resets : forall rs : list request2, LogInv (fold_left serve2 rs sdb_init).
 Proof. exact log_invariant_with_resets. Qed.
 Print Assumptions C17_store_invariant_with_resets.
+
+(* isolation of datatypes WITHIN a collection (Proofs/ProtocolOther.v; no invariant needed, any store, a storage command
+   failing or not): a pack that names datatype D neither by its identifier nor by its key — no datatype stored under the
+   pack's (collection, key) is D — leaves D's documents and D's stored operations exactly as they are, in order *)
+From Orda.Proofs Require Import ProtocolOther.
+Theorem C17_pack_elsewhere_leaves_datatype : forall f db colname col cuid req D,
+  p_duid req <> D -> (forall dk, find_dt_by_key db col (p_key req) = Some dk -> dd_duid dk <> D) ->
+  let db' := db_of (handle_pack_f f db colname col cuid req) in
+  ops_of (s_ops db') D = ops_of (s_ops db) D /\ (forall d, dd_duid d = D -> (In d (s_dts db') <-> In d (s_dts db))).
+Proof. exact pack_frame. Qed.
+Print Assumptions C17_pack_elsewhere_leaves_datatype.
